@@ -31,6 +31,7 @@ class Spec:
     noise: int = 0                      # >0: write tagged lines to stderr (1: whole+split+long lines, 2: also a record-like line)
     seq: Tuple[Tuple[str, Tuple[str, ...]], ...] = ()   # "driver": commands run in order inside this one script, failures recorded not fatal
     fail_undeclared: bool = False       # the fail flag is read without declaring it as a dependency
+    sync: Tuple[Tuple[str, str, str], ...] = ()   # E2 only: (position start|mid|end, action wait|set, flag) -- scripts that wait for each other
 
     def subst(self, arg2: str) -> "Spec":
         f = lambda s: s.replace("%", arg2)
@@ -40,7 +41,7 @@ class Spec:
         return Spec(self.kind, tuple(f(d) for d in self.deps), sel, tuple(f(d) for d in self.ifcreate),
                     tuple(f(d) for d in self.ifcreate_raw),
                     f(self.fail) if self.fail else None, self.out, self.proj, self.split, self.tag, self.noise,
-                    tuple((c, tuple(f(d) for d in ds)) for c, ds in self.seq), self.fail_undeclared)
+                    tuple((c, tuple(f(d) for d in ds)) for c, ds in self.seq), self.fail_undeclared, self.sync)
 
 
 @dataclass
@@ -87,6 +88,19 @@ def script_text(spec: Spec, variant: int, dofile: str, gates: bool = False) -> s
         L.append('vgate n "begin $1"')
         L.append('vgate n "work-begin $1"')
         L.append('vgate p "s:$1"')
+    def sync(pos):
+        # scripts that wait for each other (scheduled executions only): `set` creates a flag, `wait` parks the script at
+        # a gate the scheduler enables once the flag exists -- the scenario's way of saying "this job takes longer than that"
+        if not gates:
+            return
+        for p_, act, flag in spec.sync:
+            if p_ != pos:
+                continue
+            if act == "set":
+                L.append(': > "$RV_FLAGS/%s"; vgate n "set:%s $1"' % (flag, flag))
+            else:
+                L.append('vgate p "wait:%s $1"' % flag)   # still "working": a slow job keeps its token
+    sync("start")
     if spec.kind == "always":
         L.append("redo-always")
     if spec.noise:
@@ -158,7 +172,8 @@ def script_text(spec: Spec, variant: int, dofile: str, gates: bool = False) -> s
     for i, (cmd, names) in enumerate(spec.seq):
         q = " ".join('"%s"' % n.replace("%", "$2") for n in names)
         tool = "redo-ifchange" if cmd == "ifchange" else "redo"
-        L.append(f'rc=0; {tool} {q} || rc=$?; echo "Q $1 {i} $rc" >> "$RV_TRACE"')
+        core = f'rc=0; {tool} {q} || rc=$?; echo "Q $1 {i} $rc" >> "$RV_TRACE"'
+        L.append(('vgate n "work-end $1"; ' + core + '; vgate n "work-begin $1"') if gates else core)
     if spec.seq:
         kp()
     if spec.fail:
@@ -169,6 +184,7 @@ def script_text(spec: Spec, variant: int, dofile: str, gates: bool = False) -> s
         we = 'vgate n "work-end $1"; ' if gates else ""
         L.append(f'if [ "$(cat "{fl}")" = 1 ]; then echo "F $1" >> "$RV_TRACE"; {we}exit 7; fi')
         kp()
+    sync("mid")
     if spec.proj:
         L.append("c=$(printf %s \"$c\" | tr 1 0)")
     if spec.out == "file":
@@ -187,6 +203,7 @@ def script_text(spec: Spec, variant: int, dofile: str, gates: bool = False) -> s
         else:
             L.append('printf "%s(%s)\\n" "$1" "$c"')
     L.append('rvk e')
+    sync("end")
     if spec.noise:
         L.append('echo "L $1 4 after dependencies" >&2')
     if gates:
